@@ -163,11 +163,19 @@ def sample(population, k, *, counts=None):
     ctx.draw(1)
     if not 0 <= k <= n:
         raise ValueError("Sample larger than population or is negative")
-    idxs = [ctx.int(f"{stem}.i{j}", 0, n - 1) for j in range(k)]
+    names = [f"{stem}.i{j}" for j in range(k)]
+    idxs = [ctx.int(nm, 0, n - 1) for nm in names]
     if ctx.mode == "sym" and k > 1:
         ctx.assume_raw(z3.Distinct(*[p.e for p in idxs]))
+    elif ctx.mode == "conc" and len(set(idxs)) != len(idxs):
+        from .core import PathAbort
+
+        raise PathAbort("precondition false")
     out = [select(population, i) for i in idxs]
-    ctx.rng_log.append({"fn": "sample", "call": c, "n": n, "k": k, "population": population, "idx": idxs, "result": out})
+    if ctx.mode == "conc":
+        out = [Tagged(v) if type(v) is int else v for v in out]
+    ctx.rng_log.append({"fn": "sample", "call": c, "n": n, "k": k, "population": population, "orig": population, "idx": idxs, "perm": idxs,
+                        "names": names, "result": out})
     return out
 
 
